@@ -196,7 +196,10 @@ pub fn scripted_handler(req: Request) -> Response {
     let plan = HANDLER.with(|h| {
         let mut h = h.borrow_mut();
         h.calls.push(call);
-        h.plans.get(&path).cloned().or_else(|| h.default_plan.clone())
+        // a request can name its plan in an `x-plan` field (several requests to one path
+        // with different plans); otherwise the plan is looked up by path
+        let by_field = req.headers.iter().find(|f| f.name.to_string().eq_ignore_ascii_case("x-plan")).and_then(|f| h.plans.get(&f.value.to_string()).cloned());
+        by_field.or_else(|| h.plans.get(&path).cloned()).or_else(|| h.default_plan.clone())
     });
     if !pending {
         let custom = HANDLER.with(|h| h.borrow_mut().custom.take());
